@@ -57,7 +57,7 @@ template <typename V> inline Obs observe_plain(const V& v) {
             }
         };
         if constexpr (FIXED_DIM > 0) { nmtools_array<size_t, (size_t)FIXED_DIM> ix{}; walk(ix); }   // fixed-dim views may only accept fixed-size index arrays
-        else { nmtools_list<size_t> ix(d, 0); walk(ix); }
+        else { nmtools_list<size_t> ix; ix.resize(d); for (size_t q = 0; q < d; q++) nm::at(ix, q) = 0; walk(ix); }   // NOT ix(d, 0): the library's own vector has no (count, value) constructor (it would build {d, 0})
         return o;
     }
 }
